@@ -37,9 +37,10 @@ Where shared and own index DIFFER, and why it does not matter:
   and q9_5 only; the `favor` stage records the kind of both real indexes on every case and compares
   their tables cell by cell with the model's.  H10 (quality 10/11) has no concrete model: its
   `BulkStoreRange` is the fold of an opaque `Store` (C19 `bulk_eq_fold_store_h10`), so additivity
-  holds (`forRange_add`) but locality is the abstract hypothesis of `favor_cpu_equiv`.
+  holds and locality reduces to one statement about `Store` (`favor_cpu_equiv_h10`).
 -/
 import BV.Props.C06
+import BV.Props.C19
 import BV.Lemmas.MultiFavorKinds
 
 namespace BV.Props.C06Hasher
@@ -221,5 +222,53 @@ theorem truncated_job_uses_own_index {H : Type} (M : HasherModel H) (input : Lis
   rw [hplan]
   simp only [Bool.true_eq_false, if_false]
   rw [if_pos (by omega)]
+
+/-! ## 5. H10 (quality 10/11) and the favor loop as a C19 partition -/
+
+/-- `favor_cpu_equiv_h10`: the binary-tree index, `Store` and the empty forest OPAQUE (as in C19).
+Additivity needs nothing; what remains of the abstract hypotheses is exactly one statement about
+`Store`: at position `ix` it reads `data[.. ix + 128)` only (`StoreLookahead() = 128` = the
+`max_length` it passes to `StoreAndFindMatchesH10`; positions behind `ix` are earlier input). -/
+theorem favor_cpu_equiv_h10 {σ : Type} (store : ByteArray → Nat → σ → Option σ) (empty : σ)
+    (hloc : ∀ d d' ix st k, Agree d d' k → ix + 128 ≤ k → store d ix st = store d' ix st)
+    (input : List Nat) (t n lgwin quality j : Nat) (hq : 2 ≤ quality) (hl : 10 ≤ lgwin)
+    (hnt : bnd t n (j + 1) ≤ 2 ^ lgwin - 16) :
+    (prebuilt (h10Model store empty) input t n 127 (j + 1)).1
+      = selfbuilt (h10Model store empty) input (bnd t n (j + 1)) lgwin quality 127 :=
+  BV.Props.C06.favor_cpu_equiv (h10Model store empty) 127 (h10Model_additive store empty)
+    (h10Model_local store empty 128 (by decide) hloc) input t n lgwin quality j hq hl hnt
+
+/-- non-vacuity: a `Store` that files (position, first byte of its 128-byte window) is local -/
+example : ∀ d d' ix (st : List (Nat × Nat)) k, Agree d d' k → ix + 128 ≤ k →
+    (fun (d : ByteArray) ix (st : List (Nat × Nat)) => (win d ix 128).map fun w => st ++ [(ix, w.headD 0)]) d ix st
+      = (fun (d : ByteArray) ix (st : List (Nat × Nat)) => (win d ix 128).map fun w => st ++ [(ix, w.headD 0)]) d' ix st := by
+  intro d d' ix st k h hk
+  simp only [h ix 128 hk]
+
+/-- `shared_index_is_partition`: the `BulkStoreRange` calls of the favor loop are consecutive
+pieces `[0, c₁), [c₁, c₂), …` (`favorPieces`: sorted cut points from 0, the last one = `stored_end`),
+and the shared index handed to job `j` is C19's `runPieces` over them — e.g. for a `BasicHasher`, by
+C19 `partition_irrelevant_basic`, the one-position-at-a-time index of `[0, stored_end)`. -/
+theorem shared_index_is_partition (P : BasicP) (hP : P.Ok) (len : Nat) (input : List Nat) (t n j : Nat) :
+    Sorted 0 (favorPieces t n 7 j).1 ∧
+    endOf 0 (favorPieces t n 7 j).1 = (prebuilt (basicModel P len) input t n 7 j).2 ∧
+    (prebuilt (basicModel P len) input t n 7 j).1
+      = forRange (Basic.store P (toBA input) (2 ^ 64 - 1)) 0 (prebuilt (basicModel P len) input t n 7 j).2
+          (Array.replicate len 0) := by
+  have hp := prebuilt_is_partition (Basic.bulkStoreRange P) (Array.replicate len 0) input t n 7 j
+  have hs := favorPieces_sorted t n 7 j
+  have hpart := BV.Props.C19.partition_irrelevant_basic P hP (toBA input) 64 0 (favorPieces t n 7 j).1 hs.1
+    (Array.replicate len 0)
+  have hm : USIZE_MAX = 2 ^ 64 - 1 := Adv.usize_max_eq
+  have hp' : prebuilt (basicModel P len) input t n 7 j =
+      (runPieces (Basic.bulkStoreRange P (toBA input) USIZE_MAX) (Basic.bulkStoreRange P (toBA input) USIZE_MAX) 0
+        (favorPieces t n 7 j).1 (Array.replicate len 0), (favorPieces t n 7 j).2) := hp
+  refine ⟨hs.1, by rw [hp', hs.2], ?_⟩
+  rw [hp']
+  dsimp only
+  rw [hm]
+  have hsr : Basic.storeRange P (toBA input) (2 ^ 64 - 1) = Basic.bulkStoreRange P (toBA input) (2 ^ 64 - 1) := rfl
+  rw [hsr] at hpart
+  rw [hpart, hs.2, Nat.sub_zero]
 
 end BV.Props.C06Hasher
